@@ -278,7 +278,8 @@ AssignTo(cfg, st, a, hasv, v, count) ==
         \* setting twice) is refused unless allowed.  filled[a]: 1 = incremented, 2 = set, 3 = both
         LET inc == st.filled[a] \in {1, 3}
             set == st.filled[a] \in {2, 3} IN
-        IF ~hasv THEN
+        IF hasv /\ Len(v) = 0 THEN Undef(st)        \* an empty word as value: "no value" or "bad value"? not documented
+        ELSE IF ~hasv THEN
            (IF set /\ ~arg.mix THEN Fail(st)
             ELSE IF ~NumChecksOK(arg, st.dest[a] + 1) THEN Fail(st)
             ELSE [st EXCEPT !.dest[a] = st.dest[a] + 1, !.has[a] = TRUE, !.cnt[a] = c1, !.filled[a] = IF set THEN 3 ELSE 1])
